@@ -84,6 +84,35 @@ let build_hdr fields : M.icmp6 =
 let junk_need_ndp (l : M.ndp) =
   64 + Stdlib.List.fold_left (fun a (o : M.opt) -> a + 2 + Stdlib.List.length o.M.o_data) 0 l.M.n_opts
 
+
+(* ---- kind echo *)
+let echo_fields (l : M.echo) = Printf.sprintf "id=%s;seq=%s" (zi l.M.ec_id) (zi l.M.ec_seq)
+let echo_state (l : M.echo) =
+  Printf.sprintf "%s;c=%s;p=%s;next=2" (echo_fields l) (hex_of_bytes l.M.ec_contents) (hex_of_bytes l.M.ec_payload)
+let echo_run name (a : string array) emit =
+  let arg i = if i < Array.length a then a.(i) else "" in
+  let dec old h = M.echo_decode_into old (bytes_of_hex h) in
+  let build f = match split_on '.' f with
+    | [i; s] -> { M.ec_id = z_of_int (int_of_string i); ec_seq = z_of_int (int_of_string s); ec_contents = []; ec_payload = [] }
+    | _ -> failwith "echo fields" in
+  match name with
+  | "dec" -> let ((l, r), tr) = dec M.echo_fresh (arg 1) in
+    emit (Printf.sprintf "cls=%s;trunc=%s;%s;render=ok,ok,ok,ok" (cls_name r) (b2i tr) (echo_state l))
+  | "dec2" -> let ((l0, _), _) = dec M.echo_fresh (arg 1) in let ((l, r), tr) = dec l0 (arg 2) in
+    emit (Printf.sprintf "cls=%s;trunc=%s;%s;render=ok,ok,ok,ok" (cls_name r) (b2i tr) (echo_state l))
+  | "ser" | "nser" ->
+    let (l, fcd, payload) = if name = "ser" then (let ((l, _), _) = dec M.echo_fresh (arg 1) in (l, arg 2, arg 3)) else (build (arg 4), arg 1, arg 2) in
+    let (fix, csum, mode) = flags fcd in
+    let (r, l') = M.echo_serialize l (bytes_of_hex payload) fix csum (junk_of mode 64) in
+    emit (Printf.sprintf "cls=%s;out=%s;%s" (cls_name r) (match r with Base.Ok b -> hex_of_bytes b | _ -> "") (echo_fields l'))
+  | "rt" | "nrt" ->
+    let (l, payload) = if name = "rt" then (let ((l, _), _) = dec M.echo_fresh (arg 1) in (l, arg 2)) else (build (arg 3), arg 1) in
+    (match M.echo_serialize l (bytes_of_hex payload) true true [] with
+     | (Base.Ok b, _) -> let ((l2, r2), tr2) = M.echo_decode_into M.echo_fresh b in
+       emit (Printf.sprintf "scls=ok;cls=%s;trunc=%s;%s;render=ok,ok,ok,ok" (cls_name r2) (b2i tr2) (echo_state l2))
+     | (r, _) -> emit (Printf.sprintf "scls=%s;cls=err;trunc=0;%s;render=ok,ok,ok,ok" (cls_name r) (echo_state M.echo_fresh)))
+  | _ -> failwith "echo op"
+
 let run (id : string) (ops : string list) (out : out_channel) =
   let step = ref 0 in
   let emit s = Printf.fprintf out "%s\t%d\t%s\n" id !step s; incr step in
@@ -91,6 +120,7 @@ let run (id : string) (ops : string list) (out : out_channel) =
     let (name, a) = args_of op in
     let a = Array.of_list a in
     let arg i = if i < Array.length a then a.(i) else "" in
+    if Array.length a > 0 && a.(0) = "echo" && name <> "ostr" then echo_run name a emit else
     match name with
     | "dec" ->
       let k = arg 0 and data = bytes_of_hex (arg 1) in
